@@ -31,4 +31,37 @@ example :
     d.text = [0x7B, 0x22, 0x61, 0x2C, 0x22, 0x3A, 0x5B, 0x31, 0x5D, 0x7D] ∧
     truePositions (toksTags d.toks) = [0, 5, 6, 8, 9] := by decide
 
+/-- `structural_index` and `structural_pos` are mutually inverse on every document (indeed on every
+byte string): the `k`-th structural position maps back to ordinal `k`, a position with an ordinal is
+the position of that ordinal, and a position has an ordinal exactly when it holds a structural
+token (`{ } [ ] , :` outside strings). -/
+theorem index_pos_inverse (hasAvx2 : Bool) (d : Doc) :
+    (∀ k p, structuralPos (build hasAvx2 d.text) k = some p →
+      structuralIndex (build hasAvx2 d.text) p = some k) ∧
+    (∀ p k, structuralIndex (build hasAvx2 d.text) p = some k →
+      structuralPos (build hasAvx2 d.text) k = some p) ∧
+    (∀ p, (structuralIndex (build hasAvx2 d.text) p).isSome = (toksTags d.toks).getD p false) := by
+  have hib : (JsonSemi.sreference d.text).ib = toksTags d.toks := (sreference_toks d.toks).1
+  refine ⟨?_, ?_, ?_⟩
+  · intro k p h
+    rw [structuralPos_build] at h
+    obtain ⟨h1, h2⟩ := selectB_spec _ k p h
+    rw [structuralIndex_build, h1, h2]; rfl
+  · intro p k h
+    rw [structuralIndex_build] at h
+    by_cases hb : (JsonSemi.sreference d.text).ib.getD p false = true
+    · rw [hb] at h
+      simp only [if_true, Option.some.injEq] at h
+      rw [structuralPos_build, ← h]; exact selectB_rankB _ p hb
+    · have hb' : (JsonSemi.sreference d.text).ib.getD p false = false := by simpa using hb
+      rw [hb'] at h; simp at h
+  · intro p
+    rw [structuralIndex_build, hib]
+    cases (toksTags d.toks).getD p false <;> rfl
+
+example :
+    let d : Doc := ⟨[], .arr [] (.lit .tru) [] .nil, []⟩
+    structuralIndex (build true d.text) 5 = some 1 ∧ structuralPos (build true d.text) 1 = some 5 := by
+  decide +kernel
+
 end SV.Props.C32
